@@ -575,6 +575,42 @@ def c02_cli(ctx, cases):
     return viol[:4], []
 
 
+def cde_rooms_stage(ctx, pid, bit, what):
+    """end to end at CdE level with room options: exports -> real binary (--cde, ignore options, factor/offset fields, --rooms / --rooms-file,
+    --possible-rooms-field) -> import file; CorrCdeRooms.check_cde_rooms rebuilds the problem with the reader model"""
+    import cde
+    binpath = vlib.build_cli()
+    count = 90 if ctx.tier == "quick" else 500
+    recs = cde.e2e_cases(ctx, ctx.seed + 31, count, binpath, rooms=True)
+    viol = []
+    stats = Counter()
+    for r in recs:
+        stats["runs"] += 1
+        stats["exit_%s" % r["exit"]] += 1
+        if r["panicked"] or r["timeout"]:
+            viol.append((pid + ": the program crashes / hangs on a CdE export with room options: " + " ".join(r["args"][:-2])[:160],
+                         ctx.replay({"kind": "failing-input", "stream": "cde-rooms", "case": {k: r[k] for k in ("args", "exit", "stderr", "export")}}), False))
+            continue
+        if r.get("rooms_code") is None:
+            continue
+        stats["import_files_checked"] += 1
+        stats["rooms_%s" % r["rooms"]["rooms_arg"][0]] += 1
+        if r["rooms"]["field"]:
+            stats["with_possible_rooms_field"] += 1
+        if r["ignore_assigned"]:
+            stats["with_ignore_assigned"] += 1
+        c = r["rooms_code"]
+        if not (c & 1):
+            viol.append((pid + ": the reader model refuses an export the binary solved (CdE rooms stage)",
+                         ctx.replay({"kind": "no-failing-input-found", "stream": "cde-rooms", "broken": "CorrCdeRooms.check_cde_rooms: reader model refuses",
+                                     "case": {k: r[k] for k in ("args", "exit", "export")}}), True))
+        elif not (c & bit):
+            viol.append((what + ": " + " ".join(r["args"][:-2])[:200],
+                         ctx.replay({"kind": "failing-input", "stream": "cde-rooms", "what": what,
+                                     "case": {k: r[k] for k in ("args", "exit", "stderr", "export", "import", "rooms")}}), False))
+    return viol[:3], dict(stats)
+
+
 def c06_cli(ctx, cases):
     """C06 at CLI level: whatever the real binary writes when it was given rooms (--rooms / --rooms-file) can be housed in those rooms"""
     count = 60 if ctx.tier == "quick" else 400
@@ -591,8 +627,10 @@ def c06_cli(ctx, cases):
         if not (r["code"] & CLI["housed"]):
             viol.append(cli_violation(ctx, r, "C06: the assignment the program wrote cannot be housed in the given rooms (housedb on the output "
                                               "file's assignment, effective sizes with the instance's factors/offsets)"))
-    ctx.extra_cov = {"cli_runs": dict(stats)}
-    return viol[:4], []
+    v2, st2 = cde_rooms_stage(ctx, "C06", 2, "C06: the assignment of the CdE import file cannot be housed in the given rooms (effective sizes from the "
+                              "export's factor/offset fields and the places of ignored pre-assigned participants; CorrCdeRooms)")
+    ctx.extra_cov = {"cli_runs": dict(stats), "cde_rooms": st2}
+    return (viol + v2)[:4], []
 
 
 def c18_cli(ctx, cases):
@@ -613,8 +651,10 @@ def c18_cli(ctx, cases):
         if not (r["text_code"] & 1):
             viol.append(cli_violation(ctx, r, "C18: the text printed with --print (possible course rooms lines) differs from the model of "
                                               "io/rooms.rs on the written assignment (CorrCliText.check_text)"))
-    ctx.extra_cov = {"cli_runs": dict(stats)}
-    return viol[:4], []
+    v2, st2 = cde_rooms_stage(ctx, "C18", 4, "C18: the possible-rooms field of the CdE import file differs from the strings of the model of io/rooms.rs "
+                              "on the written assignment, or a course lacks the field (CorrCdeRooms)")
+    ctx.extra_cov = {"cli_runs": dict(stats), "cde_rooms": st2}
+    return (viol + v2)[:4], []
 
 
 def spec_c10(c):
@@ -861,6 +901,7 @@ def exit_checks(ctx, scen_fn, pid, what_table):
     recs = faults.run_scenarios(ctx, binpath, sc)
     recs = faults.eval_exit_cases(ctx, recs)
     viol = []
+    known = set()
     stats = Counter()
     disagree = []
     for r in recs:
@@ -877,6 +918,15 @@ def exit_checks(ctx, scen_fn, pid, what_table):
             continue
         if r["exit"] in (1000, 1001) or r["panicked"] or r["exit"] == 101 or r["exit"] >= 128:
             w = what_table["crash"] % (r["exit"], r["stderr"][-200:].replace("\n", " "))
+        elif pid == "C15" and r.get("mistyped") and r["exit"] in (0, 1) and pr.get("parse_ok"):
+            # a CdE export with a mistyped optional integer field was not refused
+            stats["mistyped_optional_field_accepted"] += 1
+            ents = [k for k in known_entries("C15") if k.get("class") == "CDE-TOLERANT"]
+            listed = set(ents[0].get("fields", [])) if ents else set()
+            if set(r["mistyped"]) <= listed:
+                known.add(ents[0]["what"])
+                continue
+            w = "C15: a CdE export with a mistyped field (%s) is not refused (exit %s)" % (", ".join(sorted(set(r["mistyped"]) - listed)), r["exit"])
         elif r["flags"] is None:
             w = what_table["crash"] % ("library panic in probe", str(r["probe"])[:200])
         elif "code" in r:
@@ -901,12 +951,12 @@ def exit_checks(ctx, scen_fn, pid, what_table):
                          "disagreements": len(disagree)})
         viol.append(("exit status differs from the model Cli.exit_code (%d runs), e.g. %s: exit %s" % (len(disagree), r["label"], r["exit"]), rp, True))
     ctx.extra_cov = {"cli_runs": dict(stats)}
-    return viol[:5], []
+    return viol[:5], sorted(known)
 
 
 def c15_extra(ctx, cases):
     n = 160 if ctx.tier == "quick" else 1500
-    viol, _ = exit_checks(ctx, lambda c, b: faults.scenarios_c15(c, b, n), "C15", {
+    viol, known15 = exit_checks(ctx, lambda c, b: faults.scenarios_c15(c, b, n), "C15", {
         "crash": "C15: the program panics / aborts / hangs on malformed input (exit %s; %s)",
         "c16": "C15/C16: exit status 0 without a complete output file",
         "c15": "C15: malformed input is not refused with a data/usage error status (exit %s)",
@@ -945,7 +995,7 @@ def c15_extra(ctx, cases):
     st3["runs"] = st3["docs"]
     cov["rooms_reader"] = dict(st3)
     ctx.extra_cov = cov
-    return viol[:5], []
+    return viol[:5], known15
 
 
 def c16_extra(ctx, cases):
@@ -1385,7 +1435,8 @@ REGISTRY = {
                       "--num-threads, the memory of the possible-rooms listing (courses x rooms), a closed stdout with --print and the u32 statistics "
                       "counters after 2^32 subproblems (audit of all panic sites, DESIGN 10.4a D16)"],
         assumptions=["'malformed' = some stage returns Err, as predicted by the reader model (simple format) or by construction / the same library "
-                     "functions main.rs calls (other stages)"]),
+                     "functions main.rs calls (other stages); for CdE exports additionally: an optional integer field (max_size, min_size, course_id, "
+                     "course_instructor, num_choices) with a value of the wrong type -- accepted by the reader: known finding D17 (class CDE-TOLERANT)"]),
     "C16": dict(mk(spec_none, streams_none, "output faults on the real binary: missing directory (ENOENT), path below a regular file (ENOTDIR), path is a "
                    "directory (EISDIR), 5000-character name (ENAMETOOLONG), /dev/full (ENOSPC on write), an existing longer file at the path; both "
                    "formats (simple, CdE small and large), with and without --print", extra_fn=c16_extra), allow_axioms=(),
